@@ -3,13 +3,13 @@
 (* RecvScen scenario families                                              *)
 U12 == <<".", "a", "f", "z">>
 P12 == [p \in {".", "a", "f", "z"} |-> "."]
-U10 == <<".", "d", "d/f", "f", "l", "s">>
-P10 == [p \in {".", "d", "d/f", "f", "l", "s"} |-> IF p = "d/f" THEN "d" ELSE "."]
-U09 == <<".", "a", "b", "c", "d", "d/a", "d/b", "e", "e/a">>
-P09 == [p \in {".", "a", "b", "c", "d", "d/a", "d/b", "e", "e/a"} |->
+U10 == <<".", "d", "d/f", "f", "l", "s", "x", "x/f", "y">>
+P10 == [p \in {".", "d", "d/f", "f", "l", "s", "x", "x/f", "y"} |-> IF p = "d/f" THEN "d" ELSE IF p = "x/f" THEN "x" ELSE "."]
+U09 == <<".", "a", "ab", "b", "c", "d", "d/a", "d/b", "e", "e/a">>
+P09 == [p \in {".", "a", "ab", "b", "c", "d", "d/a", "d/b", "e", "e/a"} |->
           IF p \in {"d/a", "d/b"} THEN "d" ELSE IF p = "e/a" THEN "e" ELSE "."]
-U09q == <<".", "a", "b", "d", "d/a", "d/b", "e">>
-P09q == [p \in {".", "a", "b", "d", "d/a", "d/b", "e"} |-> IF p \in {"d/a", "d/b"} THEN "d" ELSE "."]
+U09q == <<".", "a", "ab", "b", "d", "d/a", "e">>
+P09q == [p \in {".", "a", "ab", "b", "d", "d/a", "e"} |-> IF p = "d/a" THEN "d" ELSE "."]
 U11 == <<".", "d", "d/f", "f", "l", "ro", "ro/f">>
 P11 == [p \in {".", "d", "d/f", "f", "l", "ro", "ro/f"} |-> IF p = "d/f" THEN "d" ELSE IF p = "ro/f" THEN "ro" ELSE "."]
 =============================================================================
